@@ -113,6 +113,20 @@ func Make(w, h int, content, alpha string, seed int64) *image.NRGBA {
 				default:
 					c = color.NRGBA{uint8(r.n(4) * 60), 200, uint8(r.n(2) * 255), 255}
 				}
+			case content == "patchwork":
+				// 16x16 blocks, each pseudo-randomly flat or noisy: a noisy
+				// per-macroblock complexity map
+				bx, by := x/16, y/16
+				hsh := uint32(bx*73856093) ^ uint32(by*19349663) ^ uint32(seed*83492791)
+				hsh ^= hsh >> 13
+				hsh *= 0x5bd1e995
+				hsh ^= hsh >> 15
+				if hsh%3 == 0 {
+					c = color.NRGBA{uint8(r.n(256)), uint8(r.n(256)), uint8(r.n(256)), 255}
+				} else {
+					r.n(2)
+					c = color.NRGBA{uint8(40 + 20*(hsh%7)), uint8(90 + 9*(hsh%11)), 120, 255}
+				}
 			case content == "gradient":
 				c = color.NRGBA{uint8(x * 255 / max1(w-1)), uint8(y * 255 / max1(h-1)), uint8((x + y) * 255 / max1(w+h-2)), 255}
 			case content == "many":
